@@ -55,6 +55,86 @@ type symb struct {
 	memo  map[ssa.Value]*Sym
 	loops map[*ssa.Phi]string
 	subst map[ssa.Value]*Sym // optional substitutions (e.g. parameters -> caller expressions)
+	outer *symb              // symb of the enclosing function (for captured variables)
+}
+
+// cellValue: if cell (an Alloc holding one variable) is assigned exactly once — counting stores in the
+// function that owns it and in every closure that captures it — returns the assigned value.
+func cellValue(cell *ssa.Alloc) ssa.Value {
+	var val ssa.Value
+	n := 0
+	var scan func(addr ssa.Value, fn *ssa.Function)
+	scan = func(addr ssa.Value, fn *ssa.Function) {
+		refs := addr.Referrers()
+		if refs == nil {
+			return
+		}
+		for _, ref := range *refs {
+			switch x := ref.(type) {
+			case *ssa.Store:
+				if x.Addr == addr {
+					n++
+					val = x.Val
+				}
+			case *ssa.MakeClosure:
+				cl := x.Fn.(*ssa.Function)
+				for i, b := range x.Bindings {
+					if b == addr && i < len(cl.FreeVars) {
+						scan(cl.FreeVars[i], cl)
+					}
+				}
+			case *ssa.IndexAddr, *ssa.FieldAddr:
+				// element/field stores make it a composite under construction, not a simple variable
+				for _, r2 := range *ref.(ssa.Value).Referrers() {
+					if st, ok := r2.(*ssa.Store); ok && st.Addr == ref.(ssa.Value) {
+						n += 2
+					}
+				}
+			}
+		}
+	}
+	scan(cell, cell.Parent())
+	if n == 1 {
+		return val
+	}
+	return nil
+}
+
+// bindingOf returns the value bound to free variable fv at the closure's creation site.
+func bindingOf(fv *ssa.FreeVar) ssa.Value {
+	fn := fv.Parent()
+	parent := fn.Parent()
+	if parent == nil {
+		return nil
+	}
+	idx := -1
+	for i, x := range fn.FreeVars {
+		if x == fv {
+			idx = i
+		}
+	}
+	var out ssa.Value
+	instrs(parent, func(in ssa.Instruction) {
+		if mc, ok := in.(*ssa.MakeClosure); ok && mc.Fn == ssa.Value(fn) && idx >= 0 && idx < len(mc.Bindings) {
+			out = mc.Bindings[idx]
+		}
+	})
+	return out
+}
+
+// lift renders an expression of the enclosing function inside a closure: parameters and loops get a ^ prefix.
+func lift(e *Sym) *Sym {
+	if e == nil {
+		return nil
+	}
+	n := &Sym{Op: e.Op, Leaf: e.Leaf, Val: e.Val}
+	if len(e.Args) == 0 && (e.Op == "param" || e.Op == "loop" || e.Op == "alloc" || e.Op == "freevar") {
+		n.Leaf = "^" + e.Leaf
+	}
+	for _, a := range e.Args {
+		n.Args = append(n.Args, lift(a))
+	}
+	return n
 }
 
 func newSymb(fn *ssa.Function) *symb {
@@ -131,19 +211,26 @@ func (s *symb) expr0(v ssa.Value) *Sym {
 		return &Sym{Op: "bin:" + op.String(), Args: []*Sym{a, b}, Val: v}
 	case *ssa.UnOp:
 		if x.Op == token.MUL {
-			// load of a cell that holds a spilled (captured) parameter: the parameter itself
+			// load of a variable's cell that is assigned exactly once: the assigned value (store forwarding)
 			if al, ok := x.X.(*ssa.Alloc); ok {
-				var spilled ssa.Value
-				nStores := 0
-				for _, ref := range *al.Referrers() {
-					if st, ok := ref.(*ssa.Store); ok && st.Addr == ssa.Value(al) {
-						nStores++
-						spilled = st.Val
+				if _, isStruct := al.Type().(*types.Pointer).Elem().Underlying().(*types.Struct); !isStruct {
+					if _, isArr := al.Type().(*types.Pointer).Elem().Underlying().(*types.Array); !isArr {
+						if val := cellValue(al); val != nil {
+							return s.expr(val)
+						}
 					}
 				}
-				if p, ok := spilled.(*ssa.Parameter); ok && nStores == 1 {
-					if _, isStruct := p.Type().Underlying().(*types.Struct); !isStruct {
-						return s.expr(p)
+			}
+			// load of a captured variable that is assigned exactly once in the enclosing function
+			if fv, ok := x.X.(*ssa.FreeVar); ok {
+				if b := bindingOf(fv); b != nil {
+					if al, ok := b.(*ssa.Alloc); ok {
+						if val := cellValue(al); val != nil {
+							if s.outer == nil {
+								s.outer = newSymb(s.fn.Parent())
+							}
+							return lift(s.outer.expr(val))
+						}
 					}
 				}
 			}
